@@ -29,13 +29,14 @@ ASSUMPTIONS = ["libc contract taken over by the model, including the one-line gl
                "or beyond the instant's own year) and the oracle, not proved about libc",
                "main run with TZ=UTC in the environment (mktime path of zone-less RFC 822 text then equals timegm); further runs with TZ=XXX-5:30 and TZ=AAA8 cover the zone-independent streams (all UTC formatters, zone-carrying texts, accessors, epoch views); local-time functions are outside the property",
                "aws_date_time_init_epoch_secs is driven with doubles secs + ms/1000 (ms < 1000, |secs| < 2^53/1000); the double arithmetic itself is compared bit-for-bit in the harness, not proved",
-               "as_nanos consistency is claimed where 10^9*secs + 10^6*ms < 2^64 (to 2554-07-21); beyond, aws_timestamp_convert saturates (documented)",
+               "as_nanos is required to be 10^9*secs + 10^6*ms exactly, or the saturated value 2^64-1 where that does not fit (instants after 2554-07-21T23:34:33.709Z) - never a wrapped value; as_millis exact over the whole range (theorem c19_epoch_views, oracle on every acc / millis / successful parse)",
                "int arithmetic of the RFC 822 day field wraps (gcc/x86-64)"]
 RULE = ("per instant t: rt (format then parse the produced text) for 3 formats x full/date-only x explicit/auto-detect, acc; "
         "instants = month boundaries +-1 s (thorough: every year 1970-9999; quick: a seeded slice), leap days, century years, extremes, random; "
         "offset stream: +-hh:mm / +-hhmm (quick: hh 0..23 x selected mm, thorough: all 00..99 x 00..99) on ISO extended/basic and RFC 822; "
         "edge-offset stream: instants of the first/last 14 h of the range, around the epoch and year boundaries, each written with offsets of both "
         "signs up to 14 h (thorough 24 h) so that the text's wall-clock fields are before 1970 / in the neighbouring year; "
+        "nanos-limit stream: acc / millis / parsed texts with fractional seconds on both sides of 2554-07-21T23:34:33 (64-bit nanosecond limit) and at 9999-12-31, ms in {0,1,551,552,709,710,999,random}; "
         "fractions, zone-designator case variants; W stream: mutated / out-of-range / over-long texts, 2-digit years, short buffers; "
         "non-trivial = case contains at least one successful parse of a non-midnight instant or a non-zero offset")
 
@@ -164,6 +165,30 @@ def check_fields(line, want_ts, want_ms, errs, what):
             errs.append(f"{what}: accessors (y,mon,d,wd,h,mi,s)={(y, mon, d, wd, h, mi, s)} but the calendar says {exp}")
 
 
+U64MAX = 2**64 - 1
+_VIEWS = re.compile(r"millis=(\d+) nanos=(\d+) secs=([0-9a-f]{16})")
+
+
+def check_views(v, secs, ms, errs, what):
+    """epoch views of an instant secs.ms (0 <= secs <= MAXT): as_millis exact; as_nanos exact, or saturated at
+    2^64-1 where 10^9*secs + 10^6*ms does not fit (after 2554-07-21T23:34:33.709Z) - never wrapped; as_epoch_secs
+    is the double of secs + ms/1000"""
+    mv = _VIEWS.search(v or "")
+    if not mv:
+        errs.append(f"{what}: unreadable views line {v!r}")
+        return
+    millis, nanos, bits = int(mv.group(1)), int(mv.group(2)), mv.group(3)
+    if millis != 1000 * secs + ms:
+        errs.append(f"{what}: as_millis {millis} != 1000*{secs}+{ms}")
+    want = min(10**9 * secs + 10**6 * ms, U64MAX)
+    if nanos != want:
+        errs.append(f"{what}: as_nanos {nanos} but 10^9*{secs} + 10^6*{ms} " +
+                    (f"= {want}" if want < U64MAX else f"exceeds 64 bits, expected the saturated value {U64MAX}") +
+                    f" (as_millis = {millis})")
+    if bits != struct.pack(">d", float(secs) + ms / 1000.0).hex():
+        errs.append(f"{what}: as_epoch_secs bits {bits} != double({secs}+{ms}/1000)")
+
+
 def oracle(case, lines):
     """direct property oracle on the implementation's output only"""
     errs = []
@@ -184,7 +209,11 @@ def oracle(case, lines):
             errs.append(f"{what}: missing output")
             return
         ok = " parse OK " in l
+        views = None
         if ok and li < len(lines) and lines[li].startswith("W utc="):
+            li += 1
+        if ok and li < len(lines) and " views " in lines[li]:
+            views = lines[li]
             li += 1
         if not l.startswith("P "):
             return
@@ -200,7 +229,19 @@ def oracle(case, lines):
         if not ok:
             errs.append(f"{what}: text {text!r} inside the grammar was refused ({l[2:]})" + (" " + KNOWN_TAG if rfc_short else ""))
             return
+        n0 = len(errs)
         check_fields(l, ets, 0, errs, what)
+        if len(errs) == n0 and 0 <= ets <= MAXT:
+            check_views(views, ets, 0, errs, what)
+
+    def skip_parse_lines():
+        nonlocal li
+        l2 = nxt()
+        if l2 and " parse OK " in l2:
+            if li < len(lines) and lines[li].startswith("W utc="):
+                li += 1
+            if li < len(lines) and " views " in lines[li]:
+                li += 1
 
     for op in case.ops:
         t = op.split()
@@ -227,9 +268,7 @@ def oracle(case, lines):
                     errs.append(f"{op}: formatting failed: {l}")
                 continue
             if w or not (0 <= secs <= MAXT):
-                l2 = nxt()
-                if l2 and " parse OK " in l2 and li < len(lines) and lines[li].startswith("W utc="):
-                    li += 1
+                skip_parse_lines()
                 continue
             text = py_fmt(secs, f, short)
             if l != "P fmt OK " + hx(text):
@@ -252,17 +291,10 @@ def oracle(case, lines):
                 m = int(t[1]); secs, ms = m // 1000, m % 1000
             if not (0 <= secs <= MAXT):
                 continue
+            n0 = len(errs)
             check_fields(l, secs, ms, errs, op)
-            mv = re.search(r"millis=(\d+) nanos=(\d+) secs=([0-9a-f]{16})", v)
-            if not mv:
-                errs.append(f"{op}: unreadable views line {v!r}"); continue
-            millis, nanos, bits = int(mv.group(1)), int(mv.group(2)), mv.group(3)
-            if millis != 1000 * secs + ms:
-                errs.append(f"{op}: as_millis {millis} != 1000*{secs}+{ms}")
-            if 10**9 * secs + 10**6 * ms < 2**64 and nanos != 10**6 * millis:
-                errs.append(f"{op}: as_nanos {nanos} != 10^6 * as_millis {millis}")
-            if bits != struct.pack(">d", float(secs) + ms / 1000.0).hex():
-                errs.append(f"{op}: as_epoch_secs bits {bits} != double({secs}+{ms}/1000)")
+            if len(errs) == n0:
+                check_views(v, secs, ms, errs, op)
         else:
             nxt()
     return errs
@@ -386,6 +418,32 @@ def edge_offset_ops(rng, tier, n_inst=None):
                 for style, colon, pfs in sel:
                     z = "%s%02d%s%02d" % (sg, h, ":" if colon else "", m)
                     ops.append(f"parse {hx(body(local, style) + z)} {pfs[j % 2]}")
+    return ops
+
+
+NS_LIMIT = 18446744073   # last whole second whose nanosecond count fits 64 bits (2554-07-21T23:34:33Z; with ms <= 709)
+
+
+def nanos_ops(rng, tier):
+    """epoch views on both sides of the 64-bit nanosecond limit and at the end of the range, with and without
+    milliseconds (init_epoch_secs / init_epoch_millis), and the same instants parsed from texts with fractional
+    seconds (the parsers drop the fraction: views of the whole second)"""
+    k = 30 if tier == "quick" else 600
+    secs = [NS_LIMIT - 2, NS_LIMIT - 1, NS_LIMIT, NS_LIMIT + 1, NS_LIMIT + 2, NS_LIMIT + 86400, NS_LIMIT - 86400, 20000000000,
+            32503680000, MAXT - 1, MAXT, 0, 1, 2**31, 2**32]
+    secs += [rng.randint(NS_LIMIT - 10**6, NS_LIMIT + 10**6) for _ in range(k)] + [rng.randint(NS_LIMIT + 1, MAXT) for _ in range(k)]
+    secs += [rng.randint(0, NS_LIMIT) for _ in range(k // 2)]
+    ops = []
+    for t in secs:
+        for ms in [0, 1, 551, 552, 709, 710, 999, rng.randrange(1000)]:
+            ops.append(f"acc {t} {ms}")
+            ops.append(f"millis {t * 1000 + ms}")
+        ms = rng.randrange(1000)
+        frac = rng.choice(".,") + rng.choice(["%03d" % ms, "%d" % (ms % 10), "%03d%06d" % (ms, rng.randrange(10**6))])
+        ops.append(f"parse {hx(body(t, 'ext') + frac + 'Z')} {rng.choice(['iso8601', 'auto'])}")
+        ops.append(f"parse {hx(body(t, 'basic') + frac + rng.choice(['Z', 'z', '+00:00', '-0000']))} {rng.choice(['iso8601_basic', 'auto'])}")
+        ops.append(f"parse {hx(body(t, 'rfc') + rng.choice(['GMT', 'UT', 'Z', '+0000']))} {rng.choice(['rfc822', 'auto'])}")
+        ops.append(f"rt {t} iso8601 full auto")
     return ops
 
 
@@ -568,6 +626,7 @@ def gen_cases(rng, tier):
     cases += chunk(acc_ops(rng, spec + rng.sample(inst, min(len(inst), 3000 if tier == "quick" else 60000)) + rnd[:2000]), 60, {"stream": "acc"})
     cases += chunk(offset_ops(rng, tier), 50, {"stream": "offset"})
     cases += chunk(edge_offset_ops(rng, tier), 50, {"stream": "edge-offset"})
+    cases += chunk(nanos_ops(rng, tier), 50, {"stream": "nanos-limit"})
     cases += chunk(designator_ops(rng, 20 if tier == "quick" else 200), 50, {"stream": "designator"})
     cases += chunk(fraction_ops(rng, 3000 if tier == "quick" else 30000), 50, {"stream": "fraction"})
     cases += chunk(w_ops(rng, 12000 if tier == "quick" else 200000), 50, {"stream": "w"})
@@ -691,7 +750,7 @@ MANIFEST = dict(
           "closed-form day count and agrees with an independent recursive calendar for every day; format-then-parse returns the same "
           "instant (or its midnight for date-only text) for every second of 1970-9999, every parseable format and both parse modes; "
           "numeric offsets +-hh:mm / +-hhmm and Z/UT/UTC/GMT in any case are honoured; accessors equal the calendar's fields; "
-          "as_millis / as_nanos are consistent where representable. The RFC 822 date-only text is proved NOT parseable (known finding F8). "
+          "as_millis is exact and as_nanos is exact or saturated at 2^64-1, never wrapped (the plain-add body found first is proved to wrap: c19_nanos_plain_add_wraps). The RFC 822 date-only text is proved NOT parseable (known finding F8). "
           "Tied to /repo by a correspondence run of the compiled model against date_time.c rebuilt from the working tree (TZ=UTC) on every "
           "month boundary +-1 s (thorough: all years 1970-9999), leap days, century cases, extremes, enumerated offsets, fractions, "
           "designator case variants and a malformed stream, plus a direct oracle using Python's datetime."),
